@@ -47,8 +47,9 @@ pub fn c07(spec: &WorldSpec, ex: &Exec) -> Option<Viol> {
     let mut probe_disposed = false;
     let mut probe_term = 0u32;
     let mut sub_stops = 0u32;
-    // frames of Data sends: (start, got.len() at start, disposed at start)
+    // frames of Data sends: (start, ordinal of this datum, disposed at start, ..)
     let mut open: Vec<(usize, usize, bool, u32, u32)> = vec![];
+    let mut self_ended = false;
     let take_n = if let Op::Take(n) = op { Some(*n) } else { None };
     walk(ex, |i, ev, stack, _| {
         if found.is_some() {
@@ -58,8 +59,9 @@ pub fn c07(spec: &WorldSpec, ex: &Exec) -> Option<Viol> {
             Ev::Send(Actor::Probe(_), m) if m.is_terminal() => probe_disposed = true,
             Ev::Send(Actor::Sub(_), M::Data(v)) => {
                 sent.push(ival(v));
-                open.push((i, got.len(), probe_disposed, probe_term, sub_stops));
+                open.push((i, sent.len(), probe_disposed, probe_term, sub_stops));
             },
+            Ev::Send(Actor::Sub(_), m) if m.is_terminal() => self_ended = true,
             Ev::In(Actor::Sub(_), m) if m.is_terminal() => sub_stops += 1,
             Ev::In(Actor::Probe(_), M::Data(v)) => {
                 got.push(ival(v));
@@ -76,7 +78,8 @@ pub fn c07(spec: &WorldSpec, ex: &Exec) -> Option<Viol> {
                     Some(fr) if fr.msg == M::Term => true,
                     Some(fr) if fr.msg.is_data() => {
                         // take: inside the delivery of the n-th accepted item
-                        take_n.map(|n| sent.len() == n).unwrap_or(false)
+                        let ordinal = open.iter().find(|o| o.0 == fr.start).map(|o| o.1).unwrap_or(0);
+                        take_n.map(|n| ordinal == n).unwrap_or(false)
                     },
                     _ => false,
                 };
@@ -95,7 +98,7 @@ pub fn c07(spec: &WorldSpec, ex: &Exec) -> Option<Viol> {
                 match fr.msg {
                     M::Data(_) => {
                         let Some(pos) = open.iter().position(|o| o.0 == fr.start) else { return };
-                        let (_, got_before, disposed_before, term_before, stops_before) = open.remove(pos);
+                        let (_, ordinal, disposed_before, term_before, stops_before) = open.remove(pos);
                         let _ = (term_before, stops_before);
                         // the probe's data equals listfn(sent so far)
                         let want = listfn(op, &sent);
@@ -103,10 +106,11 @@ pub fn c07(spec: &WorldSpec, ex: &Exec) -> Option<Viol> {
                             found = Some(viol(spec, "not-the-list-function", i, format!("after upstream sent {:?} the probe has {:?}, expected {:?}", sent, got, want)));
                             return;
                         }
-                        let _ = got_before;
                         if let Some(n) = take_n {
                             // the delivery of the n-th item: sink completed, upstream disposed (unless the sink left)
-                            if sent.len() == n && !disposed_before {
+                            // (a subject-like source may have ended by itself from inside this very
+                            // delivery: then there is nothing left for take to complete or dispose)
+                            if ordinal == n && !disposed_before && !self_ended {
                                 let disposed_inside = probe_disposed;
                                 if !disposed_inside && probe_term != 1 {
                                     found = Some(viol(spec, "take-did-not-complete-sink", i, format!("take({n}): the {n}-th item was delivered but the probe has {probe_term} Terminate")));
